@@ -13,24 +13,24 @@
  */
 /*@unit
 name: parse.noproto_lookup
-define: U_FIRST_PROTO_LOOKUP_FAILS, VERIF_OWN_STRCHR, VERIF_STRCHR_TEXT_ONLY, VERIF_OWN_LOOKUPS
+define: U_FIRST_PROTO_LOOKUP_FAILS, VERIF_OWN_STRCHR, VERIF_STRCHR_TEXT_ONLY, VERIF_OWN_LOOKUPS, NET_NO_CONTENT
 src: url.c
 enforce: spif_url_parse
 replace: spif_str_new_from_buff, spif_str_new_from_ptr
 backend: sat
 loops: 2
-objbits: 12
+objbits: 9
 timeout: 200
 */
 /*@unit
 name: parse.proto_found
-define: U_FIRST_PROTO_LOOKUP_SUCCEEDS, VERIF_OWN_STRCHR, VERIF_STRCHR_TEXT_ONLY, VERIF_OWN_LOOKUPS
+define: U_FIRST_PROTO_LOOKUP_SUCCEEDS, VERIF_OWN_STRCHR, VERIF_STRCHR_TEXT_ONLY, VERIF_OWN_LOOKUPS, NET_NO_CONTENT
 src: url.c
 enforce: spif_url_parse
 replace: spif_str_new_from_buff, spif_str_new_from_ptr
 backend: sat
 loops: 2
-objbits: 12
+objbits: 9
 timeout: 200
 */
 #include "vprelude.h"
